@@ -1,5 +1,6 @@
 (* C16 — tracker tier failover (tier half).  Property theorems only. *)
 From RainV Require Import Lib Tier TierProofs Wire Tracker TrackerProofs Announcer AnnouncerProofs.
+From RainV Require Meta MetaProofs.
 
 (* For every tier size and every success/failure pattern, each announce goes to the member
    the two-line spec names: same member after success, successor mod n after failure. *)
@@ -65,3 +66,8 @@ Theorem C16_compact_reply_total : forall s ps, bytes s -> decode_compact s = Som
   Forall (fun p => 0 <= fst p < two32 /\ 0 <= snd p < 65536) ps.
 Proof. exact compact_reply_total. Qed.
 Print Assumptions C16_compact_reply_total.
+
+(* an HTTP tracker response is refused before it is decoded when it is nested deeper than 64 levels *)
+Theorem C16_decoded_nesting_bounded : forall n t, Meta.run_net_nesting [n; t] = [1] -> Meta.nesting_levels 0 n <= Meta.max_nesting.
+Proof. exact MetaProofs.net_nesting_bounded. Qed.
+Print Assumptions C16_decoded_nesting_bounded.
